@@ -18,11 +18,11 @@ from contracts import rbm as R
 
 LEVEL = "proof"
 MANIFEST = {
-    "engine": "qv-native",
+    "engine": "qv-native+qv-gen",
     "category": "proof",
     "technique": "contracts on the conditionals, sampling helpers, gibbs_steps and sample, bodies executed on symbolic parameters with a recording torch.bernoulli stub; obligations discharged by exp-polynomial normal form and z3",
-    "text": "Each conditional (h|v, v|h, a|v, v|h,a) is proved equal to the exact conditional of the joint Boltzmann weight for every configuration, including the factorisation over units and the out= buffer form. gibbs_steps is executed under a recording bernoulli stub for enumerated and seeded outcome patterns: every step must draw h (and a) from the conditional of the *current* visible state and then v from the conditional of those draws, the result is the last draw, k=0 returns the start state, overwrite=False leaves the caller's tensor untouched and overwrite=True updates it in place. Detailed balance of the assembled kernel with the reported distribution is a lemma over the proved conditionals.",
-    "note": "torch.bernoulli's law and the torch generator are trusted (bounded Hoeffding driver only); floats as reals (clamp_(0,1) proved to be the identity on sigmoid outputs); shapes enumerated (quick nv,nh,na<=2; thorough up to 4,4,3 for conditionals, up to 3,2,2 for detailed balance); the k-step law is K^k by the per-iteration contract and Chapman-Kolmogorov",
+    "text": "Each conditional (h|v, v|h, a|v, v|h,a) is proved equal to the exact conditional of the joint Boltzmann weight for every configuration, including the factorisation over units and the out= buffer form. gibbs_steps is executed under a recording bernoulli stub for enumerated and seeded outcome patterns: every step must draw h (and a) from the conditional of the *current* visible state and then v from the conditional of those draws, the result is the last draw, k=0 returns the start state, overwrite=False leaves the caller's tensor untouched and overwrite=True updates it in place. Detailed balance of the assembled kernel with the reported distribution is a lemma over the proved conditionals. Additionally (front end G) every conditional-probability routine equals sigmoid of its activation for every size, including the out= buffer form; lean/Marginals.lean proves for every nv, nh that the exact conditional of the joint distribution factorises into these Bernoulli parameters.",
+    "note": "torch.bernoulli's law and the torch generator are trusted (bounded Hoeffding driver only); floats as reals (clamp_(0,1) proved to be the identity on sigmoid outputs); shapes enumerated (quick nv,nh,na<=2; thorough up to 4,4,3 for conditionals, up to 3,2,2 for detailed balance); the k-step law is K^k by the per-iteration contract and Chapman-Kolmogorov; the shape-generic part (front end G) holds for all sizes and values, equalities decided by tensor-algebra normal form (sound, incomplete: a miss is undecided, never a violation without a replayed witness)",
 }
 EXPLANATION = "conditionals vs joint Boltzmann weight with all hidden/aux configurations enumerated; kernel assembled from proved conditionals"
 TRUSTED = ["torch.bernoulli(p) draws independent Bernoulli(p) variates from torch's global generator",
